@@ -1,5 +1,6 @@
 import BoltonsVerif.Common
 import BoltonsVerif.C01.Model
+import BoltonsVerif.C01.Concrete
 /-
 C01 line protocol.  One line = one whole history on the two registers `s`, `t`:
     <nk> <op> <op> ...
@@ -8,6 +9,9 @@ ids probed by the per-key readers.  Fields of an op are separated by `:`.
   pairs  = `k.v,k.v,...`  (`-` = empty)        values = `v,v,...` (`-` = empty)
   E      = `s` (self) | `t` (register t) | `o<pairs>` (fresh OMD) | `m<pairs>` (mapping)
            | `p<pairs>` (iterable of pairs) | `n` (no argument; constructor only)
+           | `S` (list snapshot of the receiver's own pairs) | `D` (the receiver's own todict())
+  addlistx:k:values  updx:pairs  extx:pairs  newx   the argument iterable yields these items and then
+           raises (`XBoom`): materialised first / taken over pair by pair / no object constructed
   new:E:F  add:k:v  addlist:k:values  set:k:v  del:k  upd:E:F  ext:E:F  sd:k:v
   pop:k:d  popall:k:d  poplast:k|-:d  (d = 0|1: default given)  popitem  clear
   cpt (t = copy of s)  cps (s = copy of s)  swap
@@ -15,6 +19,9 @@ ids probed by the per-key readers.  Fields of an op are separated by `:`.
   sorted:fn:rev  (fn = n|k|v|c)   sv:fn:rev  (fn = n|m|g|c)           -> `O<pairs>`
 `todict()` / `todict(multi=True)` are dicts: printed sorted by key id on both sides.
 Output: one `;`-separated record per op: `<ret> <dump of every reader of s> T<pairs of t>`.
+The history runs on the concrete layer (`Concrete.lean`: dict + pointer-level linked list + `_map`,
+`hstep3`); the readers walk its abstraction (`HState3.abs`), as `iteritems(multi=True)` walks the
+linked list; `__reversed__` (`R`) walks the `PREV` pointers of the heap.
 -/
 namespace C01.Driver
 open BV C01
@@ -41,8 +48,10 @@ def showOut : Out Nat Nat → String
   | .vals l => s!"L{showVals l}"
   | .pair k v => s!"KV{k}.{v}"
   | .err e => "X" ++ (showErr e).drop 1
+  | .abort => "XBoom"
 
-def dump (nk : Nat) (st : HState Nat Nat) : String :=
+def dump (nk : Nat) (st3 : HState3 Nat Nat) : String :=
+  let st := st3.abs
   let s := st.s
   let ks := List.range nk
   let inv := s.inverted
@@ -50,7 +59,7 @@ def dump (nk : Nat) (st : HState Nat Nat) : String :=
     s!"IM{showPairs s.itemsM}", s!"I{showE showPairs s.items}",
     s!"KM{showNats s.keysM}", s!"K{showNats s.keys}",
     s!"VM{showNats s.valuesM}", s!"V{showE (showNats ·) s.values}",
-    s!"L{s.len}", s!"R{showE (showNats ·) s.reversed}",
+    s!"L{s.len}", s!"BO{if s.bool then 1 else 0}", s!"IT{showNats s.iter}", s!"R{showE (showNats ·) st3.s.reversed}",
     s!"TD{showE (fun l => showPairs (sortBy (fun a b => decide (a.1 ≤ b.1)) l)) s.todict}",
     s!"TM{",".intercalate ((sortBy (fun a b => decide (a.1 ≤ b.1)) s.todictM).map fun kv => s!"{kv.1}={showVals kv.2}")}",
     s!"G{",".intercalate (ks.map fun k => showE (fun o => match o with | some v => toString v | none => "D") (s.get k))}",
@@ -70,9 +79,13 @@ def parsePairs? (s : String) : Option (List (Nat × Nat)) :=
       | _, _ => none
     | _, _ => none) (some [])
 
-def parseArg? (s : String) : Option (HArg Nat Nat) :=
+/-- `S` = a list snapshot of the receiver's own pairs, `D` = the receiver's own `todict()`: plain
+    values computed from the current state by the caller before the call -/
+def parseArg? (st : HState Nat Nat) (s : String) : Option (HArg Nat Nat) :=
   let rest := (s.drop 1).toString
   match s.front with
+  | 'S' => if rest = "" then some (.pairs st.s.itemsM) else none
+  | 'D' => if rest = "" then (match st.s.todict with | .ok l => some (.mapping l) | .error _ => none) else none
   | 's' => if rest = "" then some .self else none
   | 't' => if rest = "" then some .regT else none
   | 'o' => (parsePairs? rest).map .fresh
@@ -100,19 +113,22 @@ def valLe (fn : String) : Option (Nat → Nat → Bool) :=
 def showOMD (o : D) : String := s!"O{showPairs o.itemsM}|{showNats o.keys}|{o.len}"
 
 /-- a state-changing op -/
-def parseOp? (tok : String) : Option (HOp Nat Nat) :=
+def parseOp? (st : HState Nat Nat) (tok : String) : Option (HOp Nat Nat) :=
   match splitOnChar tok ':' with
   | ["new", e, f] => do
       let F ← parsePairs? f
       if e = "n" then pure (.new none F) else
-      let E ← parseArg? e
+      let E ← parseArg? st e
       pure (.new (some E) F)
+  | ["addlistx", k, vs] => do pure (.addlistAbort (← k.toNat?) (← natList? vs))
+  | ["updx", l] => do pure (.updateAbort (← parsePairs? l))
+  | ["extx", l] => do pure (.updateExtendAbort (← parsePairs? l))
   | ["add", k, v] => do pure (.add (← k.toNat?) (← v.toNat?))
   | ["addlist", k, vs] => do pure (.addlist (← k.toNat?) (← natList? vs))
   | ["set", k, v] => do pure (.setitem (← k.toNat?) (← v.toNat?))
   | ["del", k] => do pure (.delitem (← k.toNat?))
-  | ["upd", e, f] => do pure (.update (← parseArg? e) (← parsePairs? f))
-  | ["ext", e, f] => do pure (.updateExtend (← parseArg? e) (← parsePairs? f))
+  | ["upd", e, f] => do pure (.update (← parseArg? st e) (← parsePairs? f))
+  | ["ext", e, f] => do pure (.updateExtend (← parseArg? st e) (← parsePairs? f))
   | ["sd", k, v] => do pure (.setdefault (← k.toNat?) (← v.toNat?))
   | ["pop", k, d] => do pure (.pop (← k.toNat?) (← parseBool? d))
   | ["popall", k, d] => do pure (.popall (← k.toNat?) (← parseBool? d))
@@ -128,17 +144,25 @@ def parseOp? (tok : String) : Option (HOp Nat Nat) :=
 
 def showB (b : Bool) : String := if b then "B10" else "B01"
 
+/-- `==` and `!=`, each computed by its own model function -/
+def showEN (e n : Except Err Bool) : String :=
+  match e, n with
+  | .ok e, .ok n => s!"B{if e then 1 else 0}{if n then 1 else 0}"
+  | .error x, _ => showErr x
+  | _, .error x => showErr x
+
 /-- a query: no state change -/
 def query? (st : HState Nat Nat) (tok : String) : Option String :=
   match splitOnChar tok ':' with
   | ["eq", e] =>
     if e = "x" then some (showB false) else
-    match parseArg? e with
+    match parseArg? st e with
     | some .self => some (showB true)                       -- `self is other`
-    | some .regT => some (showB (st.s.eqOMD st.t))
-    | some (.fresh l) => some (showB (st.s.eqOMD (OMD.fromPairs l)))
-    | some (.mapping m) => some (showE showB (st.s.eqMapping m))
+    | some .regT => some (showEN (.ok (st.s.eqOMD st.t)) (.ok (st.s.neOMD st.t)))
+    | some (.fresh l) => some (showEN (.ok (st.s.eqOMD (OMD.fromPairs l))) (.ok (st.s.neOMD (OMD.fromPairs l))))
+    | some (.mapping m) => some (showEN (st.s.eqMapping m) (st.s.neMapping m))
     | _ => none
+  | ["newx"] => some "XBoom"        -- the constructor raised: no new object, `s` is still the old one
   | ["sorted", fn, rev] => do
       let le ← pairLe fn
       let r ← parseBool? rev
@@ -151,12 +175,12 @@ def query? (st : HState Nat Nat) (tok : String) : Option String :=
       | (_, out) => pure (showOut out)
   | _ => none
 
-def stepTok (nk : Nat) (st : HState Nat Nat) (tok : String) : Option (HState Nat Nat × String) :=
-  match parseOp? tok with
+def stepTok (nk : Nat) (st : HState3 Nat Nat) (tok : String) : Option (HState3 Nat Nat × String) :=
+  match parseOp? st.abs tok with
   | some op =>
-    let r := hstep st op
+    let r := hstep3 st op
     some (r.1, s!"{showOut r.2} {dump nk r.1}")
-  | none => match query? st tok with
+  | none => match query? st.abs tok with
     | some out => some (st, s!"{out} {dump nk st}")
     | none => none
 
@@ -165,13 +189,13 @@ def handle (line : String) : String :=
   | nk :: toks =>
     match nk.toNat? with
     | some nk =>
-      let rec go (st : HState Nat Nat) (toks : List String) (acc : List String) : Option (List String) :=
+      let rec go (st : HState3 Nat Nat) (toks : List String) (acc : List String) : Option (List String) :=
         match toks with
         | [] => some acc.reverse
         | t :: ts => match stepTok nk st t with
           | some (st', out) => go st' ts (out :: acc)
           | none => none
-      match go HState.init toks [] with
+      match go HState3.init toks [] with
       | some outs => ";".intercalate outs
       | none => "bad-op"
     | none => "bad-op"
